@@ -16,29 +16,53 @@ def runs_bitmap(tier):
     return [{"world": "bitmap", "n": 400000, "opts": ["exhaustive"]}, {"world": "bitmap", "n": 100000, "profile": "chk", "seed_off": 3}]
 
 
-C19_THMS = """checkedAdd_iff checkedAdd_val checkedAdd_none_iff checkedSub_iff checkedSub_val checkedOffsetFrom_iff
-checkedOffsetFrom_val overflowingAdd_spec overflowingSub_spec uncheckedAdd_fits uncheckedAdd_overflow_checked
-uncheckedAdd_overflow_wrapping uncheckedSub_fits uncheckedSub_underflow_checked uncheckedSub_underflow_wrapping
-uncheckedOffsetFrom_eq isPow2_iff checkedAlignUp_panics_iff checkedAlignUp_some checkedAlignUp_none
-checkedAlignUp_none_iff_overflow uncheckedAlignUp_eq uncheckedAlignUp_eq_checked mask_raw bitAnd_raw bitOr_raw cmp_spec""".split()
+import json, os
+_THMS = json.load(open(os.path.join(os.path.dirname(os.path.dirname(os.path.abspath(__file__))), "lean", "theorems.json")))
 
-C20_THMS = """leBytes_length ofLeBytes_lt ofLeBytes_leBytes leBytes_ofLeBytes swapBytes_lt swapBytes_involutive wrap_lt
-round_trip wire_bytes wire_bytes' eq_native_iff unwrap_wire hostBytes_ofHostBytes""".split()
+
+def T(pid):
+    return _THMS.get(pid, [])
+
+
+def runs_slice(tier, streams=False):
+    n = 60000 if tier == "quick" else 1500000
+    o = ["streams"] if streams else []
+    return [{"world": "slice", "n": n, "opts": o}, {"world": "slice", "n": n // 3, "opts": o, "profile": "chk", "seed_off": 11}]
+
+
+DERIVE_OPS = ["s.sub", "s.gsl", "s.off", "s.split", "s.ref", "s.arr", "s.s2a", "s.aref", "s.toslice", "s.refat", "s.guard", "s.new"]
 
 PROPS = {
     "C19": {
         "modules": ["VmMem.Props.C19"],
-        "theorems": ["VmMem.C19." + t for t in C19_THMS],
+        "theorems": T("C19"),
         "runs": runs_addr,
         "trusted_base": ["u64 checked_/overflowing_/wrapping intrinsics behave as documented (exercised by the correspondence run and the u128 oracle)"],
         "assumptions": ["64-bit target", "derived Ord/Eq on the address newtypes compare the single field"],
     },
     "C20": {
         "modules": ["VmMem.Props.C20"],
-        "theorems": ["VmMem.C20." + t for t in C20_THMS],
+        "theorems": T("C20"),
         "runs": runs_endian,
         "trusted_base": ["uN::to_le/to_be/from_le/from_be are the identity or a byte swap depending on the host (model is parametric in the host; "
                          "the correspondence run observes the little-endian case)", "size/alignment equalities are the crate's compile-time const_assert!, observed at run time"],
         "assumptions": ["harness host is little-endian; the big-endian half is covered by the theorems only"],
+    },
+    "C01": {
+        "modules": ["VmMem.Props.C01"],
+        "theorems": T("C01"),
+        "runs": lambda tier: runs_slice(tier),
+        # C01 talks about which accessor (if any) a request yields: compare derivation ops only
+        "proj": {"ops": DERIVE_OPS, "drop": ["h=", "d="]},
+        "trusted_base": ["the caller-provided root really is a live allocation that does not wrap the address space (unsafe fn new/with_bitmap contract)",
+                         "raw-pointer arithmetic ptr.add(off) yields address + off (no provenance model)"],
+        "assumptions": ["64-bit target"],
+    },
+    "C09": {
+        "modules": ["VmMem.Props.C09"],
+        "theorems": T("C09"),
+        "runs": runs_bitmap,
+        "trusted_base": ["Vec<AtomicU64> indexing / resize_with semantics", "single-threaded use in this property (C08 covers concurrency)"],
+        "assumptions": ["enlarge operands are VMM-chosen: byte_size + additional < 2^64 is a hypothesis of enlarge_spec (overflow is covered by enlarge_overflow)"],
     },
 }
